@@ -169,8 +169,14 @@ func c14Random(rc *simrt.RunCtx) {
 	m := ms[rc.Pick(len(ms), "knob.m")]
 	faults := rc.Pick(2, "knob.faults") == 1
 	tk := tknobs{handshake: 300 * time.Millisecond, static: true, resend: time.Duration(100+100*rc.Pick(3, "knob.resend")) * time.Millisecond}
+	if rc.Pick(2, "knob.keepalive") == 1 {
+		// keepalive pings share the window and the sequence space with the chunks
+		tk.ping = time.Duration(100+100*rc.Pick(8, "knob.ping")) * time.Millisecond
+		tk.pong = time.Minute
+	}
 	rc.Knob("M", m)
 	rc.Knob("N", n)
+	rc.Knob("timeouts", tk)
 	p, cli, srv, ok := c14Pair(rc, n, m, faults, tk)
 	if !ok {
 		rc.Probe("c14.handshake-failed")
